@@ -6,3 +6,25 @@ Import ListNotations.
 
 Lemma safe_asserts_ok : forallb safe_macro_asserts_ok safe_macros = true.
 Proof. vm_compute. reflexivity. Qed.
+
+Lemma C01_asserts_proof :
+  forall m f sf l,
+    In m safe_macros -> safe_fn_of m f = Some sf ->
+    asserts_pass l (sf_asserts sf) = true -> lens_fit f (sf_params sf) l.
+Proof.
+  intros m f sf l Hm Hsf Hp.
+  pose proof (forallb_In _ _ safe_asserts_ok m Hm) as Hok. unfold safe_macro_asserts_ok in Hok.
+  destruct (safe_fn_of m Const) as [c|] eqn:Ec; [|discriminate].
+  destruct (safe_fn_of m Any) as [a|] eqn:Ea; [|discriminate].
+  apply andb_true_iff in Hok. destruct Hok as [Hc Ha].
+  apply safe_fn_asserts_ok_sound; [|exact Hp].
+  destruct f; [rewrite Ec in Hsf | rewrite Ea in Hsf]; inversion Hsf; subst; assumption.
+Qed.
+
+Lemma C01_forms_proof :
+  forall m, In m safe_macros -> exists c a, safe_fn_of m Const = Some c /\ safe_fn_of m Any = Some a.
+Proof.
+  intros m Hm. pose proof (forallb_In _ _ safe_asserts_ok m Hm) as Hok. unfold safe_macro_asserts_ok in Hok.
+  destruct (safe_fn_of m Const) as [c|]; [|discriminate].
+  destruct (safe_fn_of m Any) as [a|]; [|discriminate]. eauto.
+Qed.
